@@ -32,6 +32,8 @@ CHECKS["C15"] = ("exploration", "5.C15", "refinement of stream command histories
   "Seeded search over XADD (automatic and explicit ids around, ahead of and at the limits of the virtual clock) / XDEL / XTRIM / XRANGE / XREVRANGE / XREAD / XLEN histories with bounds resolved at execution time to stored ids and their neighbours; every reply and, after every command, the stored entry log, its last id and the duplicated lock-free counters are compared with the model. Histories, ids and clock behaviour are unbounded, so they are sampled.")
 CHECKS["C16"] = ("exploration", "5.C16", "refinement of consumer-group histories against a model of one cursor and one pending map per group, plus a guarded consistency walk of the real pending indexes and counters after every command, under a simulated clock that controls idle times",
   "Seeded search over multi-consumer, multi-group histories (reads with COUNT/NOACK, acknowledgements, claims with idle thresholds against virtual time, administration commands, entries added and deleted in between); replies are compared with the model and the stored group state (both pending indexes, per-consumer counters, total, cursor) is read back through verif_check_consistency after every command. Histories are sampled, not enumerated.")
+CHECKS["C18"] = ("exploration", "5.C18", "multi-connection simulation with exact execution order from the transport seam, fed to a 16-database reference model with per-connection selection; canonical dump of all 16 databases compared after every turn; model-independent value tagging",
+  "Seeded search over connections moving among databases and running every command family on equal key names through all four execution paths (direct, MULTI/EXEC incl. queued SELECT, EVAL/EVALSHA, blocking pops completed later), WATCH across SELECT, FLUSHDB/FLUSHALL, invalid SELECTs and reconnects; replies, the 16-way dump and embedded database tags in returned values are checked. Histories are sampled.")
 NOT_APPLICABLE = []
 def main():
     import json as _j
